@@ -28,7 +28,7 @@ def main():
     target = f"{VERIF}/target/macro_grid_target"
     meta = gen.write_workspace(root, tier)
     if not os.path.exists(f"{root}/Cargo.lock"):
-        subprocess.run(["cp", "/repo/Cargo.lock", f"{root}/Cargo.lock"])
+        subprocess.run(["cp", os.environ.get("VERIF_REPO", "/repo") + "/Cargo.lock", f"{root}/Cargo.lock"])
     if "--build-only" in sys.argv:
         r = cargo(root, target, ["build"] + sum([["-p", s] for s in meta["members"] if s.startswith("shard")], []))
         print("prebuild exit", r.returncode, file=sys.stderr)
